@@ -216,6 +216,33 @@ def deep(x):
     for i in range(40):
         t = fp.sqrt(t * t + 1) - t / 3
     return t
+
+@fp.fpy
+def tri(n, x):
+    xs = range(n)
+    xs[0] = xs[0] + x
+    s = 0
+    for v in range(n):
+        s = s + v
+    for v in xs:
+        s = s + v
+    return (s, xs, range(n))
+
+@fp.fpy
+def pairs(xs):
+    ps = enumerate(xs)
+    ps[0] = (7, xs[0])
+    zs = zip(xs, xs)
+    zs[0] = (xs[0] + 1, xs[0])
+    return (ps, zs, enumerate(xs), zip(xs, xs))
+
+@fp.fpy
+def tail(xs):
+    ys = xs[1:]
+    ys[0] = ys[0] * 2
+    zs = [v + 1 for v in xs]
+    zs[0] = zs[0] - 5
+    return (ys, zs, xs[1:], [v + 1 for v in xs])
 '''
 
 REF_SCRIPT = '''import json, sys, importlib.util
@@ -270,9 +297,24 @@ def eval_target(m, fp, t, f=None):
     f = f or getattr(m, t['fn'])
     args = [unjson(a) for a in t['args']]
     try:
-        return canon(f(*args, ctx=ctx_of(fp, t['ctx'])))
+        r = f(*args, ctx=ctx_of(fp, t['ctx']))
+        c = canon(r)
+        _poke(r)       # the caller owns the result: writing into it must not be seen by any later evaluation
+        return c
     except Exception as e:  # noqa: BLE001
         return ['EXC', type(e).__name__]
+
+
+def _poke(v):
+    if isinstance(v, list):
+        for x in v:
+            _poke(x)
+        if v:
+            v[0] = v[-1]
+            v.append(12345)
+    elif isinstance(v, tuple):
+        for x in v:
+            _poke(x)
 
 
 def rand_target(rng):
@@ -283,8 +325,12 @@ def rand_target(rng):
         if k < 0.7:
             return (rng.randint(-40, 40) / 8).hex()
         return (rng.random() * 3).hex()
-    fn = rng.choice(['horner', 'lookup', 'trig', 'expo', 'mixed', 'pinned', 'accumulate', 'deep'])
-    if fn == 'lookup':
+    fn = rng.choice(['horner', 'lookup', 'trig', 'expo', 'mixed', 'pinned', 'accumulate', 'deep', 'tri', 'pairs', 'tail'])
+    if fn == 'tri':
+        args = [rng.randint(1, 4), num()]
+    elif fn in ('pairs', 'tail'):
+        args = [[num() for _ in range(rng.randint(2, 4))]]
+    elif fn == 'lookup':
         args = [num(), rng.randint(0, 2)]
     elif fn in ('expo', 'mixed'):
         args = [num(), num()]
